@@ -589,7 +589,21 @@ func runC08(c *Ctx) {
 			continue
 		}
 		t := succ[xi][0]
-		if !(strings.HasPrefix(ins[t].op, "TEST") && len(ins[t].args) == 2 && ins[t].args[0] == xreg && ins[t].args[1] == xreg) {
+		// a test of the register against zero: TEST r,r / OR r,r / AND r,r / CMP r,$0
+		isZeroTest := func(op string, args []string) bool {
+			if len(args) != 2 {
+				return false
+			}
+			switch {
+			case strings.HasPrefix(op, "TEST"), strings.HasPrefix(op, "OR") && len(op) == 3, strings.HasPrefix(op, "AND") && len(op) == 4:
+				return args[0] == xreg && args[1] == xreg
+			case strings.HasPrefix(op, "CMP") && len(op) == 4:
+				isZ := func(a string) bool { return a == "$0" || a == "$0x0" }
+				return args[0] == xreg && isZ(args[1]) || args[1] == xreg && isZ(args[0])
+			}
+			return false
+		}
+		if !isZeroTest(ins[t].op, ins[t].args) {
 			bad = "the exchange is not immediately followed by a test of the received value"
 			continue
 		}
@@ -599,9 +613,15 @@ func runC08(c *Ctx) {
 			bad = "the test of the received value is not followed by a conditional jump"
 			continue
 		}
-		zeroSide := je.fall
-		if ins[j].op == "JZ" || ins[j].op == "JEQ" {
+		var zeroSide int
+		switch ins[j].op {
+		case "JZ", "JEQ", "JE":
 			zeroSide = je.taken
+		case "JNZ", "JNE":
+			zeroSide = je.fall
+		default:
+			bad = "the jump after the test of the received value is not a zero / non-zero jump"
+			continue
 		}
 		if ins[zeroSide].op != "RET" {
 			bad = "the zero side of the test (lock was free and is now taken) does not return"
